@@ -225,7 +225,9 @@ def case_history(cid, kind, rng, nv=None, length=60, slots=24, reorder=True, qua
     ops.append("DROPALL")
     ops.append("GC")
     ops.append("SNAP")
-    return (header(cid, kind, cap=cap, cache=cache, threads=threads, snap_each=True), ops)
+    # which entry point declares the variables: add_vars, add_named_vars or add_named_vars_from_map
+    how = rng.choice(["", "", " addvars=named", " addvars=map"])
+    return (header(cid, kind, cap=cap, cache=cache, threads=threads, snap_each=True) + how, ops)
 
 
 def perms(n):
